@@ -49,6 +49,15 @@ Section ConvertBits.
         else if (from_bits <=? bits) || negb (last =? 0) then Ok None
         else Ok (Some (rev rret))
     end.
+
+  (* The same loop without the final checks: the complete to_bits groups, left-over bits dropped.
+     Not a library entry point; it is the regrouping performed by base64.b32decode (Model/Base32.v). *)
+  Definition convert_floor (data : list N) : res (option (list N)) :=
+    r <- loop data 0 0 [] ;;
+    match r with
+    | None => Ok None
+    | Some (_, _, rret) => Ok (Some (rev rret))
+    end.
 End ConvertBits.
 
 Definition none_is_value_error (r : res (option (list N))) : res (list N) :=
